@@ -91,6 +91,16 @@ def check(case, ctx):
         return None
     if not codec.strict_eq(S, snap):
         return Fail(e.name + "/source-mutated", "sources %r became %r" % (snap, S))
+    # views with a cache offer clearcache(): dropping the cache is part of using the view, and the cache may hold the very
+    # header / row objects of the source
+    if hasattr(res, "clearcache"):
+        try:
+            res.clearcache()
+        except Exception as ex:
+            return exc_fail(e.name + "/clearcache", ex)
+        ctx.label("clearcache")
+        if not codec.strict_eq(S, snap):
+            return Fail(e.name + "/source-mutated-by-clearcache", "after clearcache() the sources %r became %r" % (snap, S))
     for row, cp in zip(held, copies):
         if not codec.strict_eq(codec.snapshot(row), cp):
             return Fail(e.name + "/yielded-row-mutated", "row yielded as %r is now %r" % (cp, row))
